@@ -9,7 +9,7 @@ for p in sorted(glob.glob(os.path.join(os.path.dirname(os.path.abspath(__file__)
     def who(c):
         v = c.get("violation_lines", [])
         return ", ".join(sorted({l.split("obligation=")[1].split()[0] for l in v if "obligation=" in l})) if v else ""
-    res = "caught (quick): " + who(c) if m.get("caught") else ("caught (thorough): " + who(t) if m.get("caught_thorough") else
+    res = ("CONTROL (the property holds with this change): exit %s, %s" % (c.get("exit"), "no VIOLATION line" if not c.get("violation_lines") else "VIOLATION (false alarm!)")) if m.get("control") else "caught (quick): " + who(c) if m.get("caught") else ("caught (thorough): " + who(t) if m.get("caught_thorough") else
           ("NOT caught: exit %s" % c.get("exit") if c else "not run"))
     rows.append("| `%s` | %s | %s | %s | %s |" % (m["name"], m["property"], m.get("needs_to_manifest", "").replace("|", "/")[:260],
                                                "yes" if m.get("confirmed") else "NO", res))
